@@ -593,7 +593,7 @@ def r18_target_field(ctx, rule='R18t'):
     run = ctx.run
     run.rule(rule, 'TARGET-FIELD(join): the field declared for an aggregate is {name: <target name>, type: dataType or the type of the '
                    'source field} on top of a deep copy of the source field exactly when the aggregator copies properties, of nothing otherwise')
-    cands = [f for f in ctx.repo.functions.values() if f.module.name == 'dataflows.processors.join' and f.parent is not None
+    cands = [f for f in ctx.repo.functions.values() if f.module.name == 'dataflows.processors.join'
              and not isinstance(f.node, ast.Lambda) and any(isinstance(n, ast.Attribute) and n.attr == 'dataType' for n in own_nodes(f.node))]
     if len(cands) != 1:
         raise AnalysisError('join: the function that declares the target fields (reads AGGREGATORS[..].dataType) was not found')
@@ -627,13 +627,23 @@ def r18_target_field(ctx, rule='R18t'):
                 g['copies'] = pol
         name = apps[0].args[0].id
         base = pv.value(name)
-        ups = [c.value for o_, c in pv.stmts if isinstance(c, ast.Expr) and isinstance(c.value, ast.Call)
-               and isinstance(c.value.func, ast.Attribute) and c.value.func.attr == 'update' and len(c.value.args) == 1
-               and isinstance(c.value.args[0], ast.Dict)]
+        # what is stored on top of the base: x.update({...}) / x.update(dict(...)) / x.update(k=...) / x['k'] = v
+        d = {}
+        for o_, c in pv.stmts:
+            if isinstance(c, ast.Expr) and isinstance(c.value, ast.Call) and isinstance(c.value.func, ast.Attribute) and \
+                    c.value.func.attr == 'update' and isinstance(o_.value.func.value, ast.Name) and o_.value.func.value.id == name:
+                for a_ in c.value.args:
+                    if isinstance(a_, ast.Dict):
+                        d.update({k.value: v for k, v in zip(a_.keys, a_.values) if isinstance(k, ast.Constant)})
+                    elif isinstance(a_, ast.Call) and u(a_.func) == 'dict':
+                        d.update({k.arg: k.value for k in a_.keywords if k.arg})
+                d.update({k.arg: k.value for k in c.value.keywords if k.arg})
+            elif isinstance(c, ast.Assign) and isinstance(o_.targets[0], ast.Subscript) and isinstance(o_.targets[0].value, ast.Name) and \
+                    o_.targets[0].value.id == name and isinstance(o_.targets[0].slice, ast.Constant):
+                d[o_.targets[0].slice.value] = c.value
         n += 1
-        ok = len(apps) == 1 and len(ups) == 1 and base is not None
+        ok = len(apps) == 1 and base is not None
         if ok:
-            d = {k.value: v for k, v in zip(ups[0].args[0].keys, ups[0].args[0].values) if isinstance(k, ast.Constant)}
             ok = set(d) == {'name', 'type'} and isinstance(d['name'], ast.Name)
             ty = u(d['type']) if ok else ''
             if g.get('typed_by_source'):
@@ -672,6 +682,15 @@ def r18_computed_field(ctx, rule='R18c'):
     run.check(not missing, rule, m.relpath, m.name + ':<module>', 'AGGREGATORS keys',
               'documented operations missing: %s' % missing)
     gt = ctx.repo.func('dataflows.processors.add_computed_field:get_type')
+    # module-level literals the function may name (_ANY = 'any', _STRING_OPERATIONS = (...))
+    from sa.consteval import ev as _cev
+    consts_ = {}
+    for st_ in m.tree.body:
+        if isinstance(st_, ast.Assign) and len(st_.targets) == 1 and isinstance(st_.targets[0], ast.Name):
+            try:
+                consts_[st_.targets[0].id] = _cev(st_.value, {'__consts__': consts_})
+            except Exception:
+                pass
     for op in ACF_OPS:
         if op not in table:
             continue
@@ -683,7 +702,7 @@ def r18_computed_field(ctx, rule='R18c'):
             if op in ('constant',):
                 continue
             res_fields = [dict(name='a', type=T), dict(name='b', type=T)]
-            declared = fold_function(gt.node, dict(zip(gt.params, [res_fields, ['a', 'b'], op])))
+            declared = fold_function(gt.node, dict(zip(gt.params, [res_fields, ['a', 'b'], op]), __consts__=consts_))
             if declared is fold_function.UNKNOWN:
                 raise AnalysisError('get_type could not be partially evaluated for (%s, %s)' % (op, T))
             ae = AbsEval(ctx, m)
@@ -697,12 +716,12 @@ def r18_computed_field(ctx, rule='R18c'):
                       % (op, T, '/'.join(bad), declared))
         # a source of type 'any' can hold anything: so can the result, whatever the operation
         if op not in ('constant',):
-            declared = fold_function(gt.node, dict(zip(gt.params, [[dict(name='a', type='any'), dict(name='b', type='integer')], ['a', 'b'], op])))
+            declared = fold_function(gt.node, dict(zip(gt.params, [[dict(name='a', type='any'), dict(name='b', type='integer')], ['a', 'b'], op]), __consts__=consts_))
             run.check(declared == 'any', rule, gt.where, gt.qualname, 'operation %r over an any-typed source -> %s' % (op, declared),
                       'a field computed from an any-typed source is declared %s: values of any kind then fail validation' % declared)
         # constant without sources -> any
         if op == 'constant':
-            declared = fold_function(gt.node, dict(zip(gt.params, [[], [], op])))
+            declared = fold_function(gt.node, dict(zip(gt.params, [[], [], op]), __consts__=consts_))
             run.check(declared == 'any', rule, gt.where, gt.qualname, 'constant without source -> ' + str(declared),
                       'a constant computed field must be declared "any" (its value is whatever the user passes)')
 
@@ -717,7 +736,11 @@ def r18_reuse_guard(ctx, rule='R18r'):
     run = ctx.run
     run.rule(rule, 'REUSE-GUARD(join): reusing an existing target field for an aggregate is admitted only when the aggregate\'s type is '
                    '<= the type the field already declares (evaluated by partially evaluating the guard over all type pairs)')
-    f = ctx.repo.func('dataflows.processors.join:join_aux.process_target_resource')
+    cands_ = [f_ for f_ in ctx.repo.functions.values() if f_.module.name == 'dataflows.processors.join'
+              and not isinstance(f_.node, ast.Lambda) and any(isinstance(n, ast.Attribute) and n.attr == 'dataType' for n in own_nodes(f_.node))]
+    if len(cands_) != 1:
+        raise AnalysisError('join: the function that declares the target fields (reads AGGREGATORS[..].dataType) was not found')
+    f = cands_[0]
     m = f.module
     guards = [n for n in ast.walk(f.node) if isinstance(n, ast.Assert) and 'existing_field' in u(n.test) and 'data_type' in u(n.test)]
     if not guards:
